@@ -318,6 +318,12 @@ func (p *VerifPool) Cursor() int {
 	return p.rc.idx
 }
 
+// VerifReverseServerIsClosing is the predicate the server's tunnels consult to
+// refuse new RPCs (isClosing) and the one Serve consults (isClosed).
+func VerifReverseServerIsClosing(s *ReverseTunnelServer) (closing, closed bool) {
+	return s.isClosing(), s.isClosed()
+}
+
 // VerifReverseServerState reports the state (0 active, 1 closing, 2 closed)
 // and number of registered instances of a ReverseTunnelServer.
 func VerifReverseServerState(s *ReverseTunnelServer) (state int, instances int) {
